@@ -121,7 +121,8 @@ def check(cx):
 
     # ---- C08.6 short log ------------------------------------------------------------------------------
     r6 = cx.rule("C08.6", "MPR: in WriteAheadLog::open the read of block zero is dominated by a test of the file "
-                 "length (a log cut to zero length by a crash inside a checkpoint opens as empty)", floor=1)
+                 "length (a log cut to zero length by a crash inside a checkpoint opens as empty) and every success path leaves "
+                 "block zero on disk (read or freshly written)", floor=2)
     f = cx.guard(r6, "wal-open", p.method, K.WAL, "open", "io::disk::FileOperations")
     if f:
         reads = [c for c in f.calls() if c.callee.endswith("::read_exact")]
@@ -142,6 +143,17 @@ def check(cx):
         cx.verdict(good, r6, "length-test", f.where(), "block-zero read guarded by a file-length comparison",
                    "WriteAheadLog::open reads block zero unconditionally: a 0-byte log left by a crash between the "
                    "truncation and the header rewrite of a checkpoint makes open() fail (D30)")
+
+        # whichever branch is taken, block zero exists on disk when open() returns: it was read, or it is written now
+        # (the analysis pass of recovery reads it back from the file)
+        wh = cx.guard(r6, "write_header", p.method, K.WAL, "write_header")
+        if wh and reads:
+            T = p.must_reach_set({wh.id}) | {rd.callee for rd in reads}
+            cx.verdict(p.all_success_paths_call(f, T, 0), r6, "block-zero-on-disk", f.where(),
+                       "every success path reads block zero or writes a fresh one",
+                       "WriteAheadLog::open can return a log whose block zero was neither read from nor written to the file: "
+                       "the file stays shorter than a block and recovery's analysis pass fails to read it (open() errors "
+                       "although the data file is intact)")
 
     # ---- C08.7 catalog roots ---------------------------------------------------------------------------
     r7 = cx.rule("C08.7", "SIB: Database::create and Database::open hand their first page allocation to Catalog::new as "
